@@ -37,6 +37,12 @@ claimed = {
          "Narrow claim: every hunk built under merge strategy is a merge hunk without removals, and RenderMerge converts deletions to null and refuses strict hunks. Agreement with the RFC 7386 algorithm on values is not decided.", "4 C11"),
  "C12": ("static analysis: hunk-literal rule on readMergeInto (R-MERGEHUNK reader side), strategy selection in patchAll (R-FWD driver), descent rule R-DESCEND, path freshness",
          "Narrow claim: every hunk read from a merge patch is a merge hunk with its own path, null becomes a deletion, merge strategy is selected exactly for such hunks, and a hunk whose path is not exhausted is always handed on (intermediate objects). Conformance with the RFC pseudo-code on values is not decided.", "4 C12"),
+ "C06": ("static analysis: provenance/dependence slices on the list diff (R-LCSDEP), one-line context shape (R-CTX1), context provenance (R-PROV)",
+         "Narrow claim: the common subsequence the hunk walk uses is computed from both arrays' element hashes, the walk continues on the caller's own sequences, same-kind containers are diffed recursively, and every hunk carries one-element before/after context drawn from the right side. Minimality against an optimum and adjacency of the context on values are not decided.", "4 C06"),
+ "C17": ("static analysis: R-FWD, R-OPTFWD, R-PROV, R-NOEMPTY, R-PATHFRESH instantiated on package lib (v1)",
+         "Narrow claim: forwarding of values/strategy/path through every recursive v1 patch call, metadata forwarding through every comparison (three named exemptions outside C17's quantifier), provenance of old/new values, no empty hunks, hunks own their paths. Positional list arithmetic and path-metadata decoding are not decided.", "4 C17"),
+ "C18": ("static analysis: R-PTR, R-PAIR, R-PATHFRESH, R-JSONCODEC instantiated on package lib (v1)",
+         "Narrow claim: the v1 JSON Pointer writer escapes keys (raw tokens only for strings Atoi accepted), never skips an element, emits only test/remove/add with guarded removes; hunks built by the v1 readers own their paths. Equivalence with RFC evaluators and deferred token typing are not decided.", "4 C18"),
 }
 na = {}
 props = [json.loads(l) for l in open(os.path.join(V, "properties.jsonl"))]
